@@ -1,5 +1,5 @@
 From Coq Require Import Extraction ExtrOcamlBasic NArith List.
 From C12 Require Import Model.
-Extraction "Model.ml" tb_step tb_init tb_sys_step tb_run tv_make tv_assign tv_update tv_get
+Extraction "Model.ml" tb_step tb_init tb_sys_step tb_run tv_make tv_assign tv_update tv_get tv_setref
   tv_init tv_step tv_run take_elems take_batches all_nil tb_accept round_ok tb_accept_obs round_exact tb_accept_quiet
   tagN tv_acc tv_accept tv_accept_prefix N.of_nat N.to_nat.
